@@ -76,7 +76,12 @@ func routingHandler(methods map[string]method) jsonrpc2.Handler {
 		if !ok {
 			return nil, errMethodNotFound
 		}
-		return fn(context.WithValue(ctx, connKey{}, conn), *req.Params)
+		// The params member may be omitted (JSON-RPC 2.0, section 4.2).
+		var rawParams json.RawMessage
+		if req.Params != nil {
+			rawParams = *req.Params
+		}
+		return fn(context.WithValue(ctx, connKey{}, conn), rawParams)
 	})
 }
 
